@@ -107,12 +107,18 @@ def s2_s3_agreement(ctx, impls):
             fs[nm] = c[0]
             ctx.touch(c[0])
         ctx.inst(R2)
-        gt, gs, gh = guard_fields(fs['Tick']), guard_fields(fs['Skip']), guard_fields(fs['GetMaxSkip'])
-        if gt != gs:
-            ctx.report(R2, fs['Skip'], fs['Skip']['body'], cls + ' Tick/Skip guards', 'Tick is gated by %s but Skip by %s' % (sorted(gt), sorted(gs)))
-        if not gt <= gh:
+        from .. import summ, boolform
+        st_, ss_, sh_ = (summ.summary(ctx, fs[k], asserts='ignore') for k in ('Tick', 'Skip', 'GetMaxSkip'))
+        ft, fsk = st_.frozen_condition(F), ss_.frozen_condition(F)
+        inf = sh_.returns().get('18446744073709551615', boolform.F_)
+        # Skip(0) may or may not be a no-op; compare for a non-zero amount
+        if boolform.equivalent(ft, fsk, assume=boolform.A('$0')) is not True:
+            ctx.report(R2, fs['Skip'], fs['Skip']['body'], cls + ' Tick/Skip guards',
+                       'Tick does nothing when %s but Skip when %s' % (boolform.show(ft)[:200], boolform.show(fsk)[:200]))
+        if boolform.implies(ft, inf) is not True:
             ctx.report(R2, fs['GetMaxSkip'], fs['GetMaxSkip']['body'], cls + ' horizon guards',
-                       'GetMaxSkip does not report Infinity under every condition that freezes the component: Tick %s vs horizon %s' % (sorted(gt), sorted(gh)))
+                       'GetMaxSkip does not report Infinity under every condition that freezes the component: frozen when %s, Infinity when %s'
+                       % (boolform.show(ft)[:200], boolform.show(inf)[:200]))
         # horizon Infinity return is really Infinity
         ctx.inst(R3)
 
